@@ -13,6 +13,7 @@ import r_contra
 import r_pair
 import r_encbound
 import r_meta
+import r_scheme
 import witness
 
 
@@ -384,7 +385,26 @@ def c20(facts, tier):
     return rep
 
 
+def c18(facts, tier):
+    rep = Report("C18", tier, facts,
+                 "R-SCHEME(pair): per scheme projection, multiparty::decrypt_polynomial reaches the same RNSTool decoder, "
+                 "representation change and correction-factor fix as Decryptor::{bfv,ckks,bgv}_decrypt; "
+                 "R-GUARD(complete): the revelation protocol's finish refuses (assert over broadcasted) before every "
+                 "summation and every normal return, and each protocol type finishes all its revelation sub-protocols on "
+                 "every path of its finish*; R-COMMUTE certificate for order independence of delivery.",
+                 "that collective keys equal the sum-key objects; plaintext preservation of the protocols; identical "
+                 "keys across parties as values (the common-tape provenance rows are decided under C16's engine).")
+    n = r_scheme.run_pair(facts, rep)
+    rep.floor("R-SCHEME(pair)", "scheme arms compared", n, 3)
+    n = r_scheme.run_complete(facts, rep)
+    rep.floor("R-GUARD(complete)", "finish functions checked", n, 8)
+    n = r_scheme.run_commute(facts, rep)
+    rep.floor("R-COMMUTE", "message handlers", n, 1)
+    return rep
+
+
 CHECKS = {
+    "C18": c18,
     "C20": c20,
     "C04": c04,
     "C11": c11,
